@@ -1,4 +1,5 @@
 From Coq Require Import Extraction ExtrOcamlBasic.
-From RV Require Import Base.Bytes Multimap.Spec Multimap.Model Multimap.Inst.
+From RV Require Import Base.Bytes Multimap.Spec Multimap.Model Multimap.Inst Multimap.Subtree Multimap.SubtreeInst.
 Extraction Language OCaml.
-Extraction "../ocaml/gen/c09_model.ml" spec_step model_step s_empty m_empty abs_state rep_of am_range kv_cmp kv_len vals stored_count.
+Extraction "../ocaml/gen/c09_model.ml" spec_step model_step s_empty m_empty abs_state rep_of am_range kv_cmp kv_len vals stored_count
+  kv_tl_step kv_tl_empty kv_tl_rep kv_tl_abs kv_tl_check kv_sub_height.
